@@ -27,6 +27,10 @@ def make(family, rng, tier):
         scn["cfg"]["duration"] = max(scn["cfg"]["duration"], 3.0 / scn["cfg"]["tps"])
         scn["oracles"] = ORACLES
         return scn
+    if family == "trace":
+        scn = base.via_trace(sysgen.gen(rng, rng.choice(ALGOS) if ALGOS else None, PROP, tier), rng)
+        scn["oracles"] = ORACLES
+        return scn
     if family == "gen":
         scn = sysgen.gen_generated(rng, rng.choice(ALGOS) if ALGOS else None, tier)
     else:
@@ -43,4 +47,4 @@ TIMEOUT_IS_VIOLATION = True
 
 def plan(tier):  # noqa: F811
     return [("sys", 6000 if tier == "quick" else 150000), ("gen", 600 if tier == "quick" else 12000), ("aimD3", 16),
-            ("preempt", 2000 if tier == "quick" else 40000)]
+            ("preempt", 2000 if tier == "quick" else 40000), ("trace", 600 if tier == "quick" else 12000)]
